@@ -190,8 +190,8 @@ Proof.
     pose proof (inv_feed_blocks (with_dec v0 (mr_state r)) th0 now (mr_blocks r)) as H1.
     destruct (feed_blocks (with_dec v0 (mr_state r)) th0 now (mr_blocks r)) as [[v1 th1] o1]. cbn [fst snd] in *.
     pose proof (inv_step_trans _ _ _ _ _ (inv_with_dec v0 (mr_state r)) H1) as H01. cbn [app] in H01.
-    assert (He : inv_step v1 v1 (if mr_bad_blkid r && negb (d_blkid_err (v_desc v) =? 0) then [OErr (d_blkid_err (v_desc v))] else [])).
-    { apply inv_errs_only. destruct (_ && _); cbn; intros x Hx; try contradiction. destruct Hx as [<-|[]]. eauto. }
+    assert (He : inv_step v1 v1 (if mr_bad_blkid r then [OErr ERR_WRONGMSOPBLKID] else [])).
+    { apply inv_errs_only. destruct (mr_bad_blkid r); cbn; intros x Hx; try contradiction. destruct Hx as [<-|[]]. eauto. }
     exact (inv_step_trans _ _ _ _ _ Hg (inv_step_trans _ _ _ _ _ H01 He)).
   - pose proof (inv_mems_subs now host (Z.to_nat (if d_n_sub (v_desc v) =? 0 then 1 else d_n_sub (v_desc v))) 0 v0 th0 b false) as H1.
     cbv zeta in H1.
